@@ -17,12 +17,16 @@ TRUSTED = [
 ASSUME = [
     "uniform topology per tier (every shard of a tier has the same number of replicas), 1..3 x 1..3, cold tier optional",
     "BulkMaxTries >= 1 (theorem hypothesis; the harness passes the constant of /repo/consts into every case)",
-    "the caller's context is not cancelled during StoreDocuments",
+    "the caller's request context expires only at shard-visit boundaries (a call hanging until the deadline is a "
+    "timeout call of the visit after which the context is done); liveness is claimed only when it never expires",
 ]
 RULE = ("exhaustive {ok,err} call scripts for hot 1x1 (x all circuit scripts), hot 1x2, hot 2x1, cold 1x1 + hot 1x1 "
         "(thorough: three more families); random scripts over 1..3 x 1..3 shards x replicas per tier, cold tier in "
         "half of them, four hostility profiles, outcomes ok / error / timeout-after-accept / timeout-before, scripted "
-        "open circuits; shard order as shuffled by the real code (seeded). non-trivial = at least one shard visit "
+        "open circuits; in 15% of them the request context expires (cancelled after the k-th visit, k = 0.., or through a "
+        "replica call hanging until the caller's deadline and failing / accepting just after it); exhaustive {ok,err} "
+        "scripts x every expiry point for hot 1x1 and cold 1x1 + hot 1x1; real 50 ms request deadlines falling into the "
+        "100 ms back-off; shard order as shuffled by the real code (seeded). non-trivial = at least one shard visit "
         "failed or was short-circuited (fail-over or retry happened); distinct by script")
 
 
